@@ -370,6 +370,31 @@ def async_callees(W, bv):
     return out
 
 
+def async_upvar_param_index(W, cv, term):
+    """A term of the async helper body cv that is one of its captured parameters -> 1-based index of that parameter of
+    the wrapper fn, else None."""
+    from .core import BV
+    x = strip_refs(term)
+    while x[0] == "deref":
+        x = strip_refs(x[1])
+    if not (x[0] == "field" and strip_refs(x[1]) == ("param", 1) and isinstance(x[3] if len(x) > 3 else None, int)):
+        return None
+    k = x[3]
+    wb = W.by_id.get(cv.body.get("parent"))
+    if wb is None:
+        return None
+    wv = BV.of(wb)
+    for bi in wv.reach0:
+        for s_ in wv.blocks[bi]["s"]:
+            if s_["k"] == "assign" and s_["r"]["k"] == "agg" and s_["r"].get("id") == cv.id:
+                ops = s_["r"]["ops"]
+                if k < len(ops):
+                    src = strip_refs(wv.trace_op(ops[k]))
+                    if src[0] == "param":
+                        return src[1]
+    return None
+
+
 def async_param_to_arg(W, bv, t, cv, term):
     """A term of the async helper's body cv that is one of its captured parameters (`param1.k`, possibly dereferenced or
     borrowed) -> the caller's term for the argument handed in at call terminator t of bv; None if it is not one."""
